@@ -267,6 +267,23 @@ func (x *X) diffOracle(prop string, op Op, o, ref *Outcome, data []store.Series)
 	x.Viol(prop, "diff", key(d.Kind), fmt.Sprintf("%s [%d..%d step %d]: %s", op.Q, op.Start, op.End, op.Step, d.Detail))
 }
 
+// undecidable: a value/presence difference that comparison cannot adjudicate — the operand of a
+// topk/bottomk has ties, or the reference's own answer depends on the order of its inputs.
+func (x *X) undecidable(op Op, data []store.Series) bool {
+	if op.hasTopK() && tieAmbiguous(op, data, op.Eng.LookbackMs) {
+		x.R.Skipped = "tie"
+		x.Probe("tie-skipped")
+		return true
+	}
+	ref := RefQuery(op, data, op.Eng.LookbackMs)
+	if ref.Res != nil && orderSensitive(op, data, ref.Res) {
+		x.R.Skipped = "order-sensitive"
+		x.Probe("order-sensitive-skipped")
+		return true
+	}
+	return false
+}
+
 func orderSensitive(op Op, data []store.Series, base *Result) bool {
 	if len(data) < 2 {
 		return false
